@@ -165,7 +165,29 @@ def gen_case(rng, tier, uhf):
         kind = "pair-cross-spin"
     oa = [i for i in range(n) if occa[i] > 0]
     ob = [i for i in range(n) if occb[i] > 0]
-    if len(oa) >= 2 and len(ob) >= 1 and rng.random() < 0.35:
+    if len(oa) >= 1 and len(ob) >= 1 and rng.random() < 0.22:
+        # more occupied alpha than beta orbitals frozen: the active space holds more beta than alpha electrons
+        # (negative active spin, odd and even)
+        want = rng.choice([-1, -1, -2, -3])
+        nbf = rng.randint(0, max(0, len(ob) - 1))                  # frozen occupied beta
+        naf = len(oa) - (len(ob) - nbf) - want                     # active alpha = active beta + want
+        naf = max(0, min(len(oa), naf))
+        if (len(oa) - naf) - (len(ob) - nbf) < 0:
+            fa = sorted(rng.sample(oa, naf))
+            fb = sorted(rng.sample(ob, nbf))
+            la = fa + [i for i in range(n) if occa[i] == 0 and rng.random() < 0.2]
+            lb = fb + [i for i in range(n) if occb[i] == 0 and rng.random() < 0.2]
+            spec_py = [[int(x) for x in la], [int(x) for x in lb]]
+            spec_cq = "(FPair [%s] [%s])" % ("; ".join("(FI (%d)%%Z)" % x for x in la), "; ".join("(FI (%d)%%Z)" % x for x in lb))
+            kind = "pair-negative-active-spin"
+            if not sym:
+                sym = True
+                ha, hb = CC.rand_h(rng, n, True), CC.rand_h(rng, n, True)
+                eaa, ebb = CC.rand_eri(rng, n, True), CC.rand_eri(rng, n, True)
+                eab = CC.rand_eri(rng, n, False)
+                eab = eab + eab.transpose(1, 0, 2, 3)
+                eab = eab + eab.transpose(0, 1, 3, 2)
+    elif len(oa) >= 2 and len(ob) >= 1 and rng.random() < 0.35:
         # DIFFERENT non-empty frozen occupied sets for alpha and beta (the frozen-frozen alpha-beta Coulomb term of the
         # core constant is then not symmetric under exchanging the two sets), optionally with frozen virtuals
         fb = sorted(rng.sample(ob, rng.randint(1, len(ob))))
@@ -323,7 +345,47 @@ def reference_energy_oracle(c, mol):
     e_act = CC.det_expectation(terms, D)
     if e_act != e_full:
         return "reference determinant: full-space energy %s, active-space <D|H|D> %s" % (e_full, e_act)
+    # the occupation vector Tangelo itself builds for the reference state (Jordan-Wigner, alternating order = plain
+    # spin-orbital occupations) must be this determinant
+    c["_e_full"] = e_full
+    if not c["uhf"]:
+        if c["spin"] != sum(1 for x in c["occ"] if x == 1):
+            return None       # declared spin inconsistent with the occupation: no reference determinant is defined by it
+        aocc = [c["occ"][o] for o in mol.active_occupied]
+        if aocc != sorted(aocc, reverse=True):
+            c["_nonaufbau"] = True
+            return None       # non-aufbau stub occupation (singly before doubly occupied): outside what a mean-field produces
+    from tangelo.toolboxes.qubit_mappings.statevector_mapping import get_vector
+    vec = get_vector(mol.n_active_sos, mol.n_active_electrons, "JW", up_then_down=False, spin=mol.active_spin)
+    Dt = sorted(int(i) for i, b in enumerate(vec) if b)
+    if Dt != sorted(D):
+        return ("get_vector(n_active_sos=%d, n_active_electrons=%d, spin=active_spin=%d) occupies spin-orbitals %s, the reference determinant of the "
+                "occupations is %s (energy %s instead of %s)" % (mol.n_active_sos, mol.n_active_electrons, mol.active_spin, Dt, sorted(D),
+                                                                CC.det_expectation(terms, Dt), e_full))
+    c["_e_full"] = e_full
     return None
+
+
+ALL_MAPPINGS = [("JW", False), ("JW", True), ("BK", False), ("BK", True), ("scBK", True), ("JKMN", False), ("JKMN", True)]
+
+
+def encoded_reference_oracle(c, mol):
+    """<ref|H_qubit|ref> through the real chain (fermion_to_qubit_mapping + get_reference_circuit + simulator) for EVERY
+    encoding and ordering must be the exact energy of the reference determinant."""
+    want = float(c["_e_full"])
+    for mapping, utd in ALL_MAPPINGS:
+        e = reference_expectation(mol, mapping, utd)
+        if e is None:
+            continue
+        if abs(e - want) > 1e-8:
+            return mapping, "encoded reference state (%s, up_then_down=%s): <ref|H|ref> = %.9f, energy of the reference determinant %.9f (active spin %d)" % (
+                mapping, utd, e, want, mol.active_spin)
+    return None, None
+
+
+def spin_class(mol):
+    s = mol.active_spin
+    return "active-spin-negative-odd" if (s < 0 and s % 2) else ("active-spin-negative-even" if s < 0 else "active-spin-nonnegative")
 
 
 def partition_oracle(c, mol):
@@ -405,6 +467,7 @@ def run_stub(ck, n_r, n_u):
               "list (sorted, unsorted, out of range, repeated, numpy ints, bad elements) / per-spin pairs / other; "
               "non-trivial = accepted with >= 1 frozen occupied and >= 1 active orbital and non-zero two-body integrals")
     impl, exprs = [], []
+    enc_budget = [10, 45] if ck.tier == "quick" else [60, 400]     # [sampled non-negative-spin cases, total] through the encoded chain
     for c in cases:
         s, mol = impl_string(c)
         impl.append(s)
@@ -433,8 +496,20 @@ def run_stub(ck, n_r, n_u):
                 except Exception as e:
                     msg = "reference determinant energy cannot be evaluated on the implementation's Hamiltonian: %r" % e
                 if msg:
-                    ck.violation("C04/stub/%s/reference-energy/%s" % (ref, c["kind"]), msg,
+                    ck.violation("C04/stub/%s/reference-energy/%s/%s" % (ref, c["kind"], spin_class(mol)), msg,
                                  {"kind": "stub", "case": case_json(c)}, found_input=True)
+                elif (c["uhf"] or (c["spin"] == sum(1 for x in c["occ"] if x == 1) and not c.get("_nonaufbau"))) and mol.n_active_sos <= 8 and (mol.active_spin < 0 or enc_budget[0] > 0 and ck.rng.random() < 0.1) and enc_budget[1] > 0:
+                    enc_budget[1] -= 1
+                    if mol.active_spin >= 0:
+                        enc_budget[0] -= 1
+                    try:
+                        mp, msg = encoded_reference_oracle(c, mol)
+                    except Exception as e:
+                        mp, msg = "exception", "encoded reference expectation raised %r" % e
+                    ck.notes["stub_encoded_reference_cases"] = ck.notes.get("stub_encoded_reference_cases", 0) + 1
+                    if msg:
+                        ck.violation("C04/stub/%s/encoded-reference-energy/%s/%s" % (ref, mp, spin_class(mol)), msg,
+                                     {"kind": "stub", "case": case_json(c), "encoded": True}, found_input=True)
             elif c["sym"] and rep:
                 try:
                     msg = reference_energy_oracle(c, mol)
@@ -453,7 +528,8 @@ def run_stub(ck, n_r, n_u):
         ck.case("stub-molecules", json.dumps(case_json(c), sort_keys=True), nontrivial=nontrivial,
                 sample={"case": {k: v for k, v in case_json(c).items() if k in ("uhf", "n", "occ", "occa", "occb", "spec_py", "kind")},
                         "impl": s[:300]},
-                tags=[ref, "spec:" + c["kind"], "ok" if mol is not None else s, "sym" if c["sym"] else "asym"])
+                tags=[ref, "spec:" + c["kind"], "ok" if mol is not None else s.split(":")[0] + ":" + s.split(":")[1] if ":" in s else s,
+                      "sym" if c["sym"] else "asym"] + ([spin_class(mol)] if (mol is not None and not s.startswith("Crash:")) else []))
     try:
         model = ck.coq_eval("stub", PREAMBLE, exprs, shard=12, jobs=3)
     except Exception as e:
@@ -509,6 +585,10 @@ def pyscf_cases(ck):
         {"name": "H5-UHF-quartet-frozen[[0,1],[0]]", "xyz": chain(5, 0.9), "q": 0, "spin": 3, "uhf": True, "frozen": [[0, 1], [0]]},
         {"name": "H4-UHF-triplet-frozen[[0],[]]", "xyz": chain(4, 0.9), "q": 0, "spin": 2, "uhf": True, "frozen": [[0], []]},
         {"name": "H2+-UHF-one-electron", "xyz": chain(2, 1.0), "q": 1, "spin": 1, "uhf": True, "frozen": None},
+        # more occupied alpha than beta orbitals frozen: negative active spin (-1, -1, -2), all encodings
+        {"name": "H3-UHF-doublet-frozen[[0,1],[]]", "xyz": chain(3, 0.95), "q": 0, "spin": 1, "uhf": True, "frozen": [[0, 1], []], "all_mappings": True},
+        {"name": "H4-UHF-triplet-frozen[[0,1,2],[3]]", "xyz": chain(4, 0.9), "q": 0, "spin": 2, "uhf": True, "frozen": [[0, 1, 2], [3]], "all_mappings": True},
+        {"name": "H4-UHF-singlet-frozen[[0,1],[3]]", "xyz": chain(4, 1.3), "q": 0, "spin": 0, "uhf": True, "frozen": [[0, 1], [3]], "all_mappings": True},
     ]
     if ck.tier == "quick":
         return fixed
@@ -553,6 +633,19 @@ def pyscf_cases(ck):
         if fa == fb:
             fa = sorted(set(range(na)) - set(fa))[:max(1, len(fa))] or fa
         out.append({"name": "H%d-UHF-spin%d-frozen%s-rand%d" % (n, spin, [fa, fb], k), "xyz": chain(n, d), "q": 0, "spin": spin, "uhf": True, "frozen": [fa, fb]})
+    out.append({"name": "H5-UHF-doublet-frozen[[0,1],[]]", "xyz": chain(5, 0.95), "q": 0, "spin": 1, "uhf": True, "frozen": [[0, 1], []], "all_mappings": True})
+    out.append({"name": "H5-UHF-quartet-frozen[[0,1,2,3],[4]]", "xyz": chain(5, 1.0), "q": 0, "spin": 3, "uhf": True, "frozen": [[0, 1, 2, 3], [4]], "all_mappings": True})
+    for k in range(5):
+        n = rng.choice([3, 4, 4, 5])
+        spin = n % 2 if rng.random() < 0.6 else n % 2 + 2
+        na, nb = (n + spin) // 2, (n - spin) // 2
+        if nb < 1 or na - nb + 1 > na:
+            continue
+        kf = rng.randint(na - nb + 1, na)                      # frozen occupied alpha orbitals: active alpha < active beta
+        fa = sorted(rng.sample(range(na), kf))
+        fb = [n - 1] if rng.random() < 0.5 else []
+        out.append({"name": "H%d-UHF-spin%d-frozen%s-negspin%d" % (n, spin, [fa, fb], k), "xyz": chain(n, rng.uniform(0.85, 1.3)), "q": 0, "spin": spin,
+                    "uhf": True, "frozen": [fa, fb], "all_mappings": True})
     out.append({"name": "H5-UHF-doublet-frozen[[0,2],[1,4]]", "xyz": chain(5, 0.95), "q": 0, "spin": 1, "uhf": True, "frozen": [[0, 2], [1, 4]]})
     out.append({"name": "LiH-RHF-frozen_core", "xyz": [("Li", (0., 0., 0.)), ("H", (0., 0., rng.uniform(1.4, 1.8)))], "q": 0, "spin": 0,
                 "uhf": False, "frozen": "frozen_core"})
@@ -568,6 +661,13 @@ def reference_expectation(mol, mapping, up_then_down):
     qu = fermion_to_qubit_mapping(mol.fermionic_hamiltonian, mapping, mol.n_active_sos, mol.n_active_electrons,
                                   up_then_down, mol.active_spin)
     circ = get_reference_circuit(mol.n_active_sos, mol.n_active_electrons, mapping, up_then_down, mol.active_spin)
+    if circ.size == 0:          # all-zero encoded vector: an empty circuit needs its width to be simulated
+        from tangelo.linq import Circuit
+        from tangelo.toolboxes.qubit_mappings.mapping_transform import get_qubit_number
+        nq = get_qubit_number(mapping, mol.n_active_sos)
+        if nq < 1:
+            return None
+        circ = Circuit(n_qubits=nq)
     return get_backend("cirq").get_expectation_value(qu, circ)
 
 
@@ -678,11 +778,13 @@ def run_pyscf_support(ck):
         if not conv:
             ck.notes.setdefault("pyscf_unconverged", []).append(pc["name"])
             continue
-        for mapping, utd in mappings:
-            if pc["uhf"] and mapping == "scBK":
+        for mapping, utd in (ALL_MAPPINGS if pc.get("all_mappings") else mappings):
+            if pc["uhf"] and mapping == "scBK" and not pc.get("all_mappings") and ck.tier == "quick":
                 continue
             try:
                 e = reference_expectation(mol, mapping, utd)
+                if e is None:
+                    continue
             except Exception as ex:
                 cls = "uhf/one-electron" if (pc["uhf"] and mol.n_electrons == 1) else ("uhf" if pc["uhf"] else "restricted")
                 ck.violation("C04/pyscf/%s/hamiltonian-raises/%s" % (cls, type(ex).__name__),
@@ -690,7 +792,7 @@ def run_pyscf_support(ck):
                              {"kind": "pyscf", "case": json.loads(json.dumps(pc)), "mapping": mapping, "up_then_down": utd}, found_input=True)
                 break
             if abs(e - mol.mf_energy) > tol:
-                ck.violation("C04/pyscf/reference-energy/%s/%s" % ("uhf" if pc["uhf"] else ("rohf" if pc["spin"] else "rhf"), mapping),
+                ck.violation("C04/pyscf/reference-energy/%s/%s/%s" % ("uhf" if pc["uhf"] else ("rohf" if pc["spin"] else "rhf"), mapping, spin_class(mol)),
                              "%s: mean-field energy %.10f, <ref|H|ref> %.10f (%s, up_then_down=%s)" % (pc["name"], mol.mf_energy, e, mapping, utd),
                              {"kind": "pyscf", "case": json.loads(json.dumps(pc)), "mapping": mapping, "up_then_down": utd}, found_input=True)
         if mol.n_active_sos > (8 if ck.tier == "quick" else 10):
@@ -873,6 +975,12 @@ def replay(data):
             print("model:         ", r["model"][:2000])
         bad = 1 if s.startswith("Crash:") else 0
         if mol is not None:
+            if r.get("encoded"):
+                m0 = reference_energy_oracle(c, mol)
+                mp, m = (None, m0) if m0 else encoded_reference_oracle(c, mol)
+                if m:
+                    print("ORACLE:", m)
+                    bad = 1
             for f in (partition_oracle, reference_energy_oracle, electron_count_oracle):
                 if f is reference_energy_oracle and not c["sym"]:
                     continue
